@@ -563,4 +563,23 @@ theorem setValue_keeps_structure {α : Type} (m : Model α) (i : Nat) (x : α) :
   simp only [Model.setVar, Model.setParam]
   refine ⟨?_, ?_, ?_, ?_, ?_, ?_, ?_, ?_⟩ <;> split <;> rfl
 
+
+/-! ## 11. `leaf.value = x` always takes effect -/
+
+/-- **setValue_overwrites.** `var.value = x` / `param.value = x` overwrite the current value unconditionally: afterwards
+the property reads `x` and the C++ object — what `get_x`, `evaluate` and `evaluate_csr_jacobian` read (`csr_rows`) —
+holds `x`, independently of the Python-side `_value` (which goes stale when values are loaded by vector:
+`load_var_values_from_x` writes only the C++ objects, `Model.loadX`). A setter that skips the write when `x == _value`
+contradicts this theorem. -/
+theorem setValue_overwrites {α : Type} (O : Ops α) (m : Model α) (i : Nat) (x : α) :
+    (m.setVar i x).varValue O i = x ∧ (m.setParam i x).paramValue O i = x ∧
+    (∀ a c, m.varMap.lookup i = some a → findBy CLeaf.addr a m.ev.vars = some c →
+      findBy CLeaf.addr a (m.setVar i x).ev.vars = some { c with value := x }) :=
+  ⟨setVar_overwrites O m i x, setParam_overwrites O m i x, fun a c hl hf => setVar_cvalue m i a x c hl hf⟩
+
+/-- non-vacuity / the history of the seeded change: value 1, load 2 by vector, set 1 again → the value is 1 -/
+example :
+    let m0 := Model.run ratOps ({} : Model Rat) [.setVar 0 1, .register (exCon 0 0) 100 [10] [], .setStructure, .loadX [2]]
+    m0.varValue ratOps 0 = 2 ∧ (m0.setVar 0 1).varValue ratOps 0 = 1 := by decide +kernel
+
 end Wntr.Aml
